@@ -10,5 +10,5 @@ Extraction "model.ml"
   dereferenceJSONPointer escape_seg subschema_at children all_sub
   parse_uri resolve_reference uri_string decode_fragment utf8_encode utf8_decode drop_frag is_abs empty_uri
   JS.res.Resolve.Resolve JS.val.Validate.Validate validate empty_schema is_zero_schema
-  spec_valid spec_eval all_setters
+  spec_valid spec_eval all_setters isValidSchemaVersion
   Z.add Z.mul Z.opp Z.of_nat N.of_nat Z.to_nat N.to_nat Z.of_N Pos.of_nat Qred.
